@@ -1,7 +1,8 @@
 (* Extraction of the executable models for the correspondence runner.
    ExtrOcamlBasic only; numbers stay positive/N/Z datatypes; no Extract Constant. *)
 From Coq Require Import ZArith List Extraction ExtrOcamlBasic.
-From Verif Require Import Model.Retry Model.MsgRun.
+From Verif Require Import Model.Retry Model.MsgRun Model.Codecs.
 Extraction Language OCaml.
 Extraction "model.ml" Z.add Z.mul Z.div Z.modulo Z.opp
-  run_retry run_canretry run_msg_enc run_msg_dec run_frame_in run_frame_dec.
+  run_retry run_canretry run_msg_enc run_msg_dec run_frame_in run_frame_dec
+  run_thrift_w run_thrift_r run_kviter run_http_w run_http_r run_uvarint_w run_uvarint_r.
